@@ -1,6 +1,7 @@
 import Quanto.Wire
 import Quanto.Spec.C01
 import Quanto.Spec.C04
+import Quanto.Spec.C02
 open Quanto
 
 /-- scalar-or-per-element lookup -/
@@ -67,6 +68,39 @@ def handle (toks : List String) : String :=
       let cs := ((parseIntList cb).map (parseCode Q)).toArray
       let c2 := ((parseIntList c2b).map (parseCode Q)).toArray
       firstFails ((List.range cs.size).map fun i => (specC01Idem F (pick ss i) cs[i]! c2[i]!).name)
+  -- C02/C03/C16: aff F bits extend axis gs shape xbits
+  | ["aff", f, bits, ext, axis, gs, shape, xb] =>
+      let F := fmtOfName f
+      let x := parseFT F shape xb
+      let af := axis == "0"
+      let g : Option Nat := if gs == "none" then none else some gs.toNat!
+      match affQuantize F bits.toNat! (ext == "1") x af g with
+      | .error e => s!"err {e.name}"
+      | .ok q =>
+        let d := q.dequantize F
+        let again := match affQuantizeWith F bits.toNat! d af g ⟨q.scale, q.zero⟩ with
+          | .error e => s!"err:{e.name}"
+          | .ok q2 => showNatList q2.data.data.toList
+        s!"ok {showShape q.data.shape} {showNatList q.data.data.toList} {showShape q.scale.shape} {showFT F q.scale} {showIntList q.zero.data.toList} {showShape d.shape} {showFT F d} {again}"
+  -- absmax F qmax axis shape xbits   (AbsmaxOptimizer: qmax=127; absmax_scale: dtype max)
+  | ["absmax", f, qmax, axis, shape, xb] =>
+      let F := fmtOfName f
+      let x := parseFT F shape xb
+      let ax : Axis := if axis == "none" then none else some (axis == "0")
+      let s := absmaxScale F (qmax.toNat! : Rat) x ax
+      s!"{showShape s.shape} {showFT F s}"
+  | ["spec02", f, bits, axis, gs, shape, xb, pshape, sb, gshape, cb, zb, yb] =>
+      let F := fmtOfName f
+      let g : Option Nat := if gs == "none" then none else some gs.toNat!
+      let codes : T Nat := ⟨parseShape gshape, (parseNatList cb).toArray⟩
+      let zero : T Int := ⟨parseShape pshape, (parseIntList zb).toArray⟩
+      let r := specC02 F bits.toNat! (parseFT F shape xb) (axis == "0") g (parseFT F pshape sb) codes zero (parseFT F shape yb)
+      if r.1 = .ok then "ok" else s!"fail {r.1.name} {r.2}"
+  | ["spec03", f, qmax, axis, shape, xb, sshape, sb] =>
+      let F := fmtOfName f
+      let ax : Axis := if axis == "none" then none else some (axis == "0")
+      let r := specC03 F (qmax.toNat! : Rat) (parseFT F shape xb) ax (parseFT F sshape sb)
+      if r.1 = .ok then "ok" else s!"fail {r.1.name} {r.2}"
   -- C04
   | ["pack", bits, shape, data] =>
       let t : T Nat := ⟨parseShape shape, (parseNatList data).toArray⟩
